@@ -83,9 +83,12 @@ structure State where
   /-- ghost: acknowledged (topic, partition count) pairs whose topic has not been explicitly
   deleted since the acknowledgement -/
   acked : List (Nat × Nat)
+  /-- every value the snapshot key ever held, oldest first: what the watch stream carries; a
+  notification is identified by its index here -/
+  hist : List Snap
 
 def init (locals : Nat → Snap) : State :=
-  { etcd := none, rev := 0, brokers := fun b => { loc := locals b, pend := none }, opPend := none, acked := [] }
+  { etcd := none, rev := 0, brokers := fun b => { loc := locals b, pend := none }, opPend := none, acked := [], hist := [] }
 
 def upd (f : Nat → Broker) (b : Nat) (x : Broker) : Nat → Broker := fun i => if i = b then x else f i
 
@@ -93,6 +96,9 @@ inductive Step where
   | begin (b : Nat) (op : TOp)
   | commit (b : Nat)
   | watch (b : Nat)
+  /-- the watch stream hands broker `b` the (possibly long outdated) notification of the `r`-th
+  snapshot write -/
+  | deliver (b : Nat) (r : Nat)
   | opGet (crd : Snap)
   | opTxn
 deriving Repr
@@ -119,7 +125,7 @@ def commitB (s : State) (b : Nat) : State × Res :=
     if r = s.rev then
       ({ s with etcd := some (s.brokers b).loc, rev := s.rev + 1,
                 brokers := upd s.brokers b { loc := (s.brokers b).loc, pend := none },
-                acked := ackUpd s.acked op }, .ok)
+                acked := ackUpd s.acked op, hist := s.hist ++ [(s.brokers b).loc] }, .ok)
     else if att + 1 < maxAttempts then beginB s b op (att + 1)
     else ({ s with brokers := upd s.brokers b { loc := (s.brokers b).loc, pend := none } }, .conflict)
 
@@ -129,13 +135,19 @@ def step (mg : Snap → Snap → Snap) (s : State) : Step → State × Res
   | .watch b =>
     if (s.brokers b).pend.isSome then (s, .pending)
     else ({ s with brokers := upd s.brokers b { loc := s.etcd.getD (s.brokers b).loc, pend := none } }, .pending)
+  | .deliver b _ =>
+    -- `watchSnapshot` ignores what the notification carries: it calls `refreshSnapshot`, which takes
+    -- `persistMu` (so it waits while `b` is inside `updateSnapshot`; the harness re-delivers then)
+    -- and re-reads the key
+    if (s.brokers b).pend.isSome then (s, .pending)
+    else ({ s with brokers := upd s.brokers b { loc := s.etcd.getD (s.brokers b).loc, pend := none } }, .pending)
   | .opGet crd =>
     if s.opPend.isSome then (s, .pending) else ({ s with opPend := some (s.rev, mergeOpt mg crd s.etcd, 0) }, .pending)
   | .opTxn =>
     match s.opPend with
     | none => (s, .pending)
     | some (r, payload, att) =>
-      if r = s.rev then ({ s with etcd := some payload, rev := s.rev + 1, opPend := none }, .ok)
+      if r = s.rev then ({ s with etcd := some payload, rev := s.rev + 1, opPend := none, hist := s.hist ++ [payload] }, .ok)
       else if att + 1 < maxAttempts then
         ({ s with opPend := some (s.rev, mergeOpt mg payload s.etcd, att + 1) }, .pending)
       else ({ s with opPend := none }, .conflict)
@@ -158,7 +170,7 @@ def commitOld (s : State) (b : Nat) : State × Res :=
   | some (_, op, _) =>
     ({ s with etcd := some (s.brokers b).loc, rev := s.rev + 1,
               brokers := upd s.brokers b { loc := (s.brokers b).loc, pend := none },
-              acked := ackUpd s.acked op }, .ok)
+              acked := ackUpd s.acked op, hist := s.hist ++ [(s.brokers b).loc] }, .ok)
 
 /-- Before the fix `CreatePartitions` mutated the local store WITHOUT holding `persistMu`, so the
 watch refresh could run between mutation and put (`watchOld` ignores `pend`). -/
@@ -171,6 +183,21 @@ def stepOld (mg : Snap → Snap → Snap) (s : State) : Step → State × Res
 
 def runOld (mg : Snap → Snap → Snap) (s : State) (steps : List Step) : State :=
   steps.foldl (fun s st => (stepOld mg s st).1) s
+
+/-! ### a watcher that trusts the notification (seeded variant, NOT the code) -/
+
+/-- `watchSnapshot` rewritten to apply the snapshot carried by the watch event with
+`s.metadata.Update` directly — no `persistMu`, no re-read.  A notification may be arbitrarily old
+and may arrive while the broker is between `updateSnapshot`'s read and its write-back. -/
+def stepSeeded (mg : Snap → Snap → Snap) (s : State) : Step → State × Res
+  | .deliver b r =>
+    match s.hist[r]? with
+    | some old => ({ s with brokers := upd s.brokers b { loc := old, pend := (s.brokers b).pend } }, .pending)
+    | none => (s, .pending)
+  | st => step mg s st
+
+def runSeeded (mg : Snap → Snap → Snap) (s : State) (steps : List Step) : State :=
+  steps.foldl (fun s st => (stepSeeded mg s st).1) s
 
 /-! ### the property -/
 
